@@ -16,13 +16,17 @@ TEXT = ("split_*: for every accepted string the string is a valid URI-reference 
         "unix socket, port, path, query, fragment are exactly the components of the reference split (ref/rfc3986_ref.h, appendix B + section 3 ABNF); for every refused "
         "string the reference says invalid or port > 65535 (completeness). rt_* / unix*: evhttp_uri_join of a parsed URI succeeds and the result parses with the same "
         "flags into identical components; evhttp_uri_free releases everything. set_*: after the setters accepted a set of components, the getters return them, "
-        "and evhttp_uri_join either refuses or produces a string that parses (same flags) into exactly those components; a refusing setter leaves the URI unchanged. join_limit: evhttp_uri_join succeeds exactly when text + NUL fit into `limit`, "
+        "and evhttp_uri_join either refuses or produces a string that parses (same flags) into exactly those components; a refusing setter leaves the URI unchanged. host_seq: evhttp_uri_set_host on a URI that already has a host (parsed '//[::]:8/p' or set before; "
+        "HOST_STRIP_BRACKETS state included) -- the joined URI parses into the current components, nothing of the replaced host (its brackets) survives. "
+        "join_limit: evhttp_uri_join succeeds exactly when text + NUL fit into `limit`, "
         "never writes at or behind buf[limit], and its text does not depend on the limit.")
 NOTE = ("FINDINGS (all reproduced natively, fixed in /repo): (1) UNIX_SOCKET URIs lost path/query/fragment -- 'http://unix:/run/control.sock:/controller' parsed with "
         "path '/run/control.sock' (fixes/C28-unixsocket-path); (2) IPvFuture grammar: '[v8.]' accepted, '[V1.o]' refused (fixes/C28-ipvfuture-grammar); (3) setters + join "
         "wrote URIs that parse into different components: port > 65535, path '//x' or 'a:b' without authority/scheme, userinfo/port without host, unix socket with ':' / '@' "
         "/ relative path / host (fixes/C28-join-roundtrip). The obligations unix, split_auth, set_noauth, set_qf, set_nohost, set_bigport, set_unix fail on the "
-        "tree before those commits. A path that was never set (NULL) compares equal to the parsed empty path. Port 65535 is the largest accepted (implementation limit, "
+        "tree before those commits. (4) PENDING: under EVHTTP_URI_UNIX_SOCKET a setter-built host 'unix' with a port joins into '//unix:8/p', which parses as the "
+        "unix-socket form and is refused (fixes/C28-join-host-named-unix); until that patch is in the tree host_seq assumes that one combination away (KF_EXCLUDE_HOST_NAMED_UNIX, "
+        "switched off automatically when the fix is found in http.c). A path that was never set (NULL) compares equal to the parsed empty path. Port 65535 is the largest accepted (implementation limit, "
         "RFC 3986 has *DIGIT). Trusted: cbmc, env/http_fmt.h, env/http_stralloc.h, env/evbuf_contract*.h, ref/rfc3986_ref.h, the IPv6 oracle.")
 ASSUMPTIONS = ["allocation does not fail", "evbuffer API behaves as documented (contract model, property C12)",
                "evutil_inet_pton(AF_INET6) is a deterministic function of its text that accepts only texts over HEXDIG ':' '.' of length >= 2 (property C40)",
@@ -59,6 +63,15 @@ def setters_ob(name, ks=-1, ku=-1, kh=-1, kx=-1, kp=-1, kq=-1, kf=-1, port=None,
     return dict(name=name, harness="C28_uri.c", entry="harness_setters", defines=d, unwind=J + 3, unwindset=us,
                 cbmc=["--object-bits", "10"], solver=solver, timeout=timeout, mem_gb=mem, desc=desc)
 
+def _host_named_unix_fixed():
+    """fixes/C28-join-host-named-unix.diff present in the tree under test?  (until it is, host_seq excludes that one combination)"""
+    import os
+    repo = os.environ.get("VERIF_REPO", "/repo")
+    try:
+        return "not name the host \"unix\"" in open(os.path.join(repo, "http.c"), errors="replace").read()
+    except OSError:
+        return False
+
 def obligations(tier):
     q = tier == "quick"
     RT, SP = ["VP_ONLY_ROUNDTRIP"], ["VP_ONLY_SPLIT"]
@@ -76,6 +89,9 @@ def obligations(tier):
         parse_ob("unix", nu, prefix="//unix:", flags=8, extra=["VP_WIT_UNIX"] + (["VP_NO_WIT_QF", "VP_ONLY_SPLIT"] if q else []), timeout=T, mem=3 if q else 5,
                  desc="components%s: '//unix:' + any string <= %d bytes, UNIX_SOCKET" % ("" if q else " + parse-join-parse", nu)),
         dict(setters_ob("join_limit", kh=1 if q else 2, kp=2 if q else 3, kq=-1 if q else 1, flags=1, timeout=T, desc="evhttp_uri_join size limit: host, path%s set through the setters, any limit up to the buffer size" % ("" if q else ", query")), entry="harness_join_limit", unwind=12 if q else 18),
+        dict(setters_ob("host_seq", kh=4, kp=2, port=(8, 8), timeout=T, extra=["VP_KH2=4", "VP_WIT_V6"] + ([] if _host_named_unix_fixed() else ["KF_EXCLUDE_HOST_NAMED_UNIX"]),
+                        desc="host replaced on a URI that already has one: first host from parse('//[::]:8/p') or set_host(<=4 bytes), then set_host(<=4 bytes or NULL), join, parse; all 8 flag combinations"),
+             entry="harness_host_seq"),
         setters_ob("set_noauth", ks=1, kp=3, extra=["VP_WIT_REL"], timeout=T, desc="setters+join, no authority: scheme<=1, path<=3 bytes, all flags"),
         setters_ob("set_qf", kp=1, kq=1, kf=1, extra=["VP_WIT_REL"], timeout=T, desc="setters+join: path<=1 query<=1 fragment<=1, all flags"),
         setters_ob("set_nohost", ku=1, port=(-2, 9), kp=1, timeout=T, desc="setters+join, userinfo/port without host: userinfo<=1, port in [-2,9], path<=1"),
@@ -100,6 +116,6 @@ def obligations(tier):
             dict(parse_ob("split_any_ndebug", ns, extra=SP, timeout=T, desc="NDEBUG twin of split_any at <= %d bytes" % ns), ndebug=True),
         ]
     # longest first: the driver starts jobs in list order, this keeps the tail of the schedule short
-    heavy = ["set_unix", "set_host", "rt_auth", "rt_any", "unix", "unix_ui", "rt_v6", "split_any", "split_auth"]
+    heavy = ["set_unix", "host_seq", "set_host", "rt_auth", "rt_any", "unix", "unix_ui", "rt_v6", "split_any", "split_auth"]
     obs.sort(key=lambda o: heavy.index(o["name"]) if o["name"] in heavy else len(heavy))
     return obs
